@@ -10,6 +10,7 @@ resolution.  Nothing is imported or executed.
 from __future__ import annotations
 
 import ast
+import json
 import os
 from dataclasses import dataclass, field
 from typing import Dict, Iterable, List, Optional, Sequence, Set, Tuple
@@ -542,6 +543,7 @@ class Program:
         self._subclasses: Dict[str, Set[str]] = {}
         self._load()
         self._resolve_jit_decorators()
+        self._canonical_parameter_names()
         self._positionalise_calls()
         self._collapse_forwarders()
         self._expand_wrapping_decorators()
@@ -599,6 +601,110 @@ class Program:
                     moved = True
                 if moved:
                     n.keywords = [k for k in n.keywords if k.arg in kwd]
+
+    # ------------------------------------------------------ parameter names of the pinned tree
+    def _canonical_parameter_names(self):
+        """The rules name the arguments of the library's functions as the pinned tree does (param_names.json).  A function
+        whose parameters were renamed -- same count, other names -- gets them renamed back here, in its signature, in its body
+        (closures included) and at the package's keyword call sites: alpha-renaming, nothing else.  A function is left as it
+        is when its parameter count changed, when it is new, or when a canonical name is already used for something else in
+        its body."""
+        if os.environ.get("AFQMC_LINT_NO_PARAM_CANON"):
+            return
+        path = os.path.join(os.path.dirname(os.path.abspath(__file__)), "param_names.json")
+        try:
+            table = json.load(open(path))
+        except (OSError, ValueError):
+            return
+        by_name: Dict[str, Set[Tuple[str, ...]]] = {}
+        for q_, names_ in table.items():
+            by_name.setdefault(q_.rsplit(".", 1)[-1], set()).add(tuple(names_))
+        renamed: Dict[str, List[Dict[str, str]]] = {}      # function name -> mappings old -> canonical
+        seen_nodes = set()
+        for fi in list(self.functions.values()) + [m for c in self.classes.values() for m in c.methods.values()]:
+            node = fi.node
+            if isinstance(node, ast.Lambda) or id(node) in seen_nodes:
+                continue
+            seen_nodes.add(id(node))
+            cur = [q.name for q in fi.params]
+            want = table.get(fi.qualname)
+            if want is None or len(want) != len(cur):
+                fam = [t for t in by_name.get(fi.name, ()) if len(t) == len(cur)]
+                want = list(fam[0]) if len(fam) == 1 else None
+            if want is None or list(want) == cur:
+                continue
+            mapping = {a: b for a, b in zip(cur, want) if a != b}
+            if set(mapping.values()) & (set(cur) - set(mapping)):
+                continue
+            used = {n.id for n in ast.walk(node) if isinstance(n, ast.Name)} | \
+                {a.arg for n in ast.walk(node) if isinstance(n, (ast.FunctionDef, ast.AsyncFunctionDef, ast.Lambda))
+                 for a in n.args.posonlyargs + n.args.args + n.args.kwonlyargs}
+            if set(mapping.values()) & (used - set(mapping)):
+                continue          # the canonical name already means something else here
+
+            def rename(n, live):
+                """rename Name / arg occurrences of the keys of `live` below n; a nested scope that binds a name itself keeps it"""
+                if isinstance(n, (ast.FunctionDef, ast.AsyncFunctionDef, ast.Lambda)) and n is not node:
+                    own = {a.arg for a in n.args.posonlyargs + n.args.args + n.args.kwonlyargs} | \
+                        ({n.args.vararg.arg} if n.args.vararg else set()) | ({n.args.kwarg.arg} if n.args.kwarg else set())
+                    for d in n.args.defaults + [d for d in n.args.kw_defaults if d is not None]:
+                        rename(d, live)
+                    for d in getattr(n, "decorator_list", []):
+                        rename(d, live)
+                    inner = {k: v for k, v in live.items() if k not in own}
+                    body = [n.body] if isinstance(n, ast.Lambda) else n.body
+                    for st in body:
+                        rename(st, inner)
+                    return
+                if isinstance(n, ast.Name) and n.id in live:
+                    n.id = live[n.id]
+                for ch in ast.iter_child_nodes(n):
+                    rename(ch, live)
+            a_ = node.args
+            for x in a_.posonlyargs + a_.args + a_.kwonlyargs + ([a_.vararg] if a_.vararg else []) + ([a_.kwarg] if a_.kwarg else []):
+                if x.arg in mapping:
+                    x.arg = mapping[x.arg]
+            for st in node.body:
+                rename(st, mapping)
+            # static_argnames strings name parameters too
+            for d in node.decorator_list:
+                if isinstance(d, ast.Call):
+                    for kw in d.keywords:
+                        if kw.arg == "static_argnames":
+                            for c_ in ast.walk(kw.value):
+                                if isinstance(c_, ast.Constant) and isinstance(c_.value, str) and c_.value in mapping:
+                                    c_.value = mapping[c_.value]
+            for q in fi.params:
+                if q.name in mapping:
+                    q.name = mapping[q.name]
+            renamed.setdefault(fi.name, []).append(mapping)
+        if not renamed:
+            return
+        # keyword call sites of the renamed functions (by name; only when every renamed definition of that name agrees)
+        agreed = {}
+        for nm, maps in renamed.items():
+            merged: Dict[str, str] = {}
+            ok = True
+            for m_ in maps:
+                for k, v in m_.items():
+                    if merged.get(k, v) != v:
+                        ok = False
+                    merged[k] = v
+            if ok:
+                agreed[nm] = merged
+        for mod in self.modules.values():
+            for n in ast.walk(mod.tree):
+                if not isinstance(n, ast.Call) or not n.keywords:
+                    continue
+                tgt = n.func
+                if isinstance(tgt, (ast.Name, ast.Attribute)) and (dotted(tgt) or "").split(".")[-1] == "partial" and n.args:
+                    tgt = n.args[0]
+                nm = tgt.id if isinstance(tgt, ast.Name) else tgt.attr if isinstance(tgt, ast.Attribute) else None
+                mp = agreed.get(nm)
+                if mp:
+                    for k in n.keywords:
+                        if k.arg in mp:
+                            k.arg = mp[k.arg]
 
     # ------------------------------------------------------ jit decorators written indirectly
     def _resolve_jit_decorators(self):
